@@ -46,7 +46,21 @@ def load_seeds(prop):
         for s in ns["SEEDS"]:
             if prop in s["properties"]:
                 seeds.append(s)
+    # behaviour-preserving refactors written by sub-agents: the check must stay silent on them
+    rdir = os.path.join(VERIF, "refactors")
+    mp = os.path.join(rdir, "MAP.json")
+    if os.path.exists(mp):
+        for rid, props in sorted(json.load(open(mp)).items()):
+            if prop in props and os.path.exists(os.path.join(rdir, rid, "patch.diff")):
+                seeds.append({"name": "refactor-" + rid, "properties": props, "silent": True, "expect": "", "patch": os.path.join(rdir, rid, "patch.diff")})
     return seeds
+
+
+def apply_patch(root, patch):
+    p = subprocess.run("patch -p1 -F3 -s < %s" % patch, shell=True, cwd=root, stdout=subprocess.PIPE, stderr=subprocess.STDOUT, text=True)
+    if p.returncode != 0:
+        return "patch does not apply: " + p.stdout[-200:]
+    return None
 
 
 def apply_edits(root, edits):
@@ -75,7 +89,10 @@ def run_seed(prop, seed, scratch_root):
         kf = os.path.join(VERIF, "known_findings.json")
         if os.path.exists(kf):
             shutil.copy(kf, vd)
-        err = apply_edits(repo, seed["edits"])
+        if seed.get("patch"):
+            err = apply_patch(repo, seed["patch"])
+        else:
+            err = apply_edits(repo, seed["edits"])
         if err:
             return {"name": name, "status": "skipped", "why": err}
         env = {"GOCACHE": os.path.join(d, "gocache")} if os.environ.get("DFS_PRIVATE_GOCACHE") else None
